@@ -5,7 +5,7 @@
    reserved-prefix label is the target of a jump - it is accepted by the published schema
    (validate_script) and lint_script reports no unknown / unused / redefined label.
    Diagnostic: does the model equal Lower(prog) literally?                                  *)
-EXTENDS BareLower, Json, IOUtils
+EXTENDS BareLower, Json, IOUtils, TreeEq
 Cases == JsonDeserialize(IOEnv.CASES)
 VARIABLES tid, verdict
 vars == <<tid, verdict>>
@@ -21,7 +21,7 @@ Init == tid \in 1..Len(Cases) /\ verdict = "open"
 Next == /\ verdict = "open"
         /\ verdict' = Law[1]
         /\ PrintT(<<"V", tid>> \o Law)
-        /\ (Law[1] = "ACCEPT" /\ C.hasProg /\ Lower(C.prog) # C.parsed => PrintT(<<"NONCONFORMANT-LOWERING", tid>>))
+        /\ (Law[1] = "ACCEPT" /\ C.hasProg /\ ~ModelEq(Lower(C.prog), C.parsed) => PrintT(<<"NONCONFORMANT-LOWERING", tid>>))
         /\ UNCHANGED tid
 Spec == Init /\ [][Next]_vars
 =============================================================================
